@@ -1,6 +1,7 @@
 package main
 
 import (
+	"go/constant"
 	"go/types"
 	"go/ast"
 	"go/token"
@@ -24,7 +25,8 @@ type Loop struct {
 	Maps      bool // some map may be updated
 	Chans     bool
 	KCell     interface{} // cell holding the range position
-	KOff      int         // $k = cell + KOff
+	KOff      int         // $k = cell + KOff at the loop head
+	KOffBody  int         // $kN = cell + KOffBody seen from inside the body
 	MapIter   bool        // the loop ranges over a map
 	HasCall   bool
 }
@@ -94,6 +96,9 @@ func findLoops(fn *ssa.Function, fset *token.FileSet, src []byte) []*Loop {
 			l.Header = hdrs[i]
 		}
 		analyseLoopEffects(l)
+		if l.KCell == nil {
+			countedLoop(l)
+		}
 	}
 	if len(hdrs) != len(loops) {
 		for _, l := range loops {
@@ -127,6 +132,7 @@ func analyseLoopEffects(l *Loop) {
 					if b == l.Head {
 						l.KCell = ssa.Instruction(r)
 						l.KOff = 0
+						l.KOffBody = -1
 						if _, isMap := r.X.Type().Underlying().(*types.Map); isMap {
 							l.MapIter = true
 						}
@@ -176,6 +182,7 @@ func analyseLoopEffects(l *Loop) {
 				if al, ok := st.Addr.(*ssa.Alloc); ok && al.Comment == "rangeindex" {
 					l.KCell = al
 					l.KOff = 1
+					l.KOffBody = 0
 				}
 			}
 		}
@@ -292,4 +299,91 @@ func selfContained(l *Loop, al *ssa.Alloc) bool {
 		}
 	}
 	return true
+}
+
+// countedLoop: `for i := c; i < n; i++` — the loop test reads a local that the loop writes
+// exactly once, by adding 1, and that holds the constant c on entry. Then $k (completed
+// iterations) is i - c at the loop head, as for a range loop.
+func countedLoop(l *Loop) {
+	var test *ssa.If
+	for _, ins := range l.Head.Instrs {
+		if x, ok := ins.(*ssa.If); ok {
+			test = x
+		}
+	}
+	if test == nil {
+		return
+	}
+	cmp, ok := test.Cond.(*ssa.BinOp)
+	if !ok {
+		return
+	}
+	var iv *ssa.Alloc
+	for _, side := range []ssa.Value{cmp.X, cmp.Y} {
+		if u, ok := side.(*ssa.UnOp); ok && u.Op == token.MUL {
+			if al, ok := u.X.(*ssa.Alloc); ok && al.Comment != "" && iv == nil {
+				if _, isInt := scalarSort(deref(al.Type())); isInt {
+					iv = al
+				}
+			}
+		}
+	}
+	if iv == nil {
+		return
+	}
+	// exactly one store inside the loop: i = i + 1
+	n := 0
+	for b := range l.Blocks {
+		for _, ins := range b.Instrs {
+			st, ok := ins.(*ssa.Store)
+			if !ok || st.Addr != ssa.Value(iv) {
+				continue
+			}
+			n++
+			add, ok := st.Val.(*ssa.BinOp)
+			if !ok || add.Op != token.ADD {
+				return
+			}
+			ld, ok1 := add.X.(*ssa.UnOp)
+			one, ok2 := add.Y.(*ssa.Const)
+			if !ok1 || !ok2 || ld.X != ssa.Value(iv) || one.Value == nil || one.Value.String() != "1" {
+				return
+			}
+		}
+	}
+	if n != 1 {
+		return
+	}
+	// value on entry: the last store in the predecessor outside the loop must be a constant
+	for _, p := range l.Head.Preds {
+		if l.Blocks[p] {
+			continue
+		}
+		var last *ssa.Store
+		for b := p; b != nil; {
+			for _, ins := range b.Instrs {
+				if st, ok := ins.(*ssa.Store); ok && st.Addr == ssa.Value(iv) {
+					last = st
+				}
+			}
+			if last != nil || len(b.Preds) != 1 {
+				break
+			}
+			b = b.Preds[0]
+		}
+		if last == nil {
+			return
+		}
+		c, ok := last.Val.(*ssa.Const)
+		if !ok || c.Value == nil {
+			return
+		}
+		v, exact := constant.Int64Val(constant.ToInt(c.Value))
+		if !exact {
+			return
+		}
+		l.KCell = iv
+		l.KOff = int(-v)
+		l.KOffBody = int(-v)
+	}
 }
